@@ -61,7 +61,7 @@ Proof.
   destruct (n =? 0) eqn:E0; [lia|].
   destruct (max_size sizeT <? n) eqn:E1; [lia|].
   destruct (no_overflow sizeT n Hs) as [H1 H2]; [lia|].
-  repeat split; try lia. exact H2.
+  repeat split; try lia; try exact H2.
 Qed.
 
 Lemma guard_length_error sizeT n :
@@ -85,9 +85,11 @@ Proof.
   intros Hx Hk.
   assert (Hp : 0 < 2 ^ k) by (apply Z.pow_pos_nonneg; lia).
   assert (E1 : W - 2 ^ k = Z.shiftl (Z.ones (64 - k)) k).
-  { rewrite Z.shiftl_mul_pow2 by lia. rewrite Z.ones_equiv. unfold Z.pred.
-    rewrite Z.mul_sub_distr_r. rewrite <- Z.pow_add_r by lia.
-    replace (64 - k + k) with 64 by lia. change (2 ^ 64) with W. lia. }
+  { rewrite Z.shiftl_mul_pow2 by lia. rewrite Z.ones_equiv.
+    assert (HW : 2 ^ (64 - k) * 2 ^ k = W).
+    { rewrite <- Z.pow_add_r by lia. replace (64 - k + k) with 64 by lia. reflexivity. }
+    replace (Z.pred (2 ^ (64 - k)) * 2 ^ k) with (2 ^ (64 - k) * 2 ^ k - 2 ^ k) by (unfold Z.pred; ring).
+    rewrite HW. reflexivity. }
   assert (E2 : x - x mod 2 ^ k = Z.shiftl (Z.shiftr x k) k).
   { rewrite Z.shiftl_mul_pow2 by lia. rewrite Z.shiftr_div_pow2 by lia.
     pose proof (Z.div_mod x (2 ^ k)) as D. lia. }
@@ -113,6 +115,9 @@ Proof.
   intro Ha. unfold wrap. symmetry. apply (Z.mod_unique_pos (- a) W (-1) (W - a)); lia.
 Qed.
 
+Lemma wrap_sub1 x : wrap (wrap x - 1) = wrap (x - 1).
+Proof. unfold wrap. apply Zminus_mod_idemp_l. Qed.
+
 (* no wrap: the least multiple of a that is >= p *)
 Lemma align_ptr_nowrap p k :
   0 <= k < 64 -> 0 <= p -> p + 2 ^ k - 1 < W ->
@@ -122,7 +127,7 @@ Lemma align_ptr_nowrap p k :
 Proof.
   intros Hk Hp Hw a r. pose proof (pow2_lt_W k Hk) as Ha. fold a in Ha.
   assert (Er : r = (p + a - 1) - (p + a - 1) mod a).
-  { unfold r, align_ptr. rewrite (wrap_small (p + a)) by (fold a in Hw; lia).
+  { unfold r, align_ptr. rewrite wrap_sub1.
     rewrite (wrap_small (p + a - 1)) by (fold a in Hw; lia).
     rewrite wrap_neg by exact Ha. unfold a. apply land_mask; [fold a in Hw; fold a; lia | exact Hk]. }
   assert (Hdiv : (a | r)).
@@ -143,7 +148,7 @@ Proof.
   assert (E : wrap (wrap (p + a) - 1) = p + a - 1 - W).
   { assert (E1 : wrap (p + a) = p + a - W).
     { unfold wrap. symmetry. apply (Z.mod_unique_pos (p + a) W 1); lia. }
-    rewrite E1. apply wrap_small. lia. }
+    rewrite E1. rewrite wrap_small by lia. lia. }
   rewrite E, wrap_neg by exact Ha. unfold a. rewrite land_mask by (fold a; lia).
   fold a. rewrite Z.mod_small by lia. lia.
 Qed.
